@@ -1,7 +1,8 @@
 #!/usr/bin/env python3
 """self-test: apply one edit to a scratch copy of the private repo, run bin/check, report"""
 import subprocess, sys, os, shutil, json, re
-SRC="/tmp/w-client"; DST="/tmp/w-client-m"
+import os as _os
+SRC=_os.environ.get("SELFTEST_SRC","/repo"); DST="/tmp/w-client-m"
 def run(prop, name, edits=None, reverse=None):
     shutil.rmtree(DST, ignore_errors=True)
     shutil.copytree(SRC, DST, ignore=shutil.ignore_patterns(".git"))
